@@ -24,7 +24,7 @@ from pennylane.spin import Lattice, generate_lattice
 
 from .. import lib
 from ..lib import CheckResult
-from ..paulis import LET, Agg, dict_to_terms, ps_to_dict, show_terms, to_gd
+from ..paulis import LET, Agg, dict_to_terms, ps_to_dict, sentence_diff, show_terms, terms_to_dict
 
 PID = "C69"
 M = 3
@@ -233,6 +233,35 @@ def call_model(rng, model, max_spin_sites, max_fermi_sites, kmax, fixed=None):
              "ham": terms, "nq": nq, "exact": exact}, desc)
 
 
+def haldane_bridge_case(rng, max_sites):
+    """Haldane model at a GENERAL phase (float bridge): the call, and three 'emit' records asking TLC for the exact operator at phi = 0, pi/2, pi."""
+    sh, nc, bc, _ = rand_config(rng, max_sites, 2)
+    mp = rng.choice(["jw", "jw", "par", "bk"])
+    t1, t2 = list(rng.choice(POOL)), list(rng.choice(POOL))
+    phi = rng.uniform(-3.1, 3.1)
+    op = qp.spin.haldane(sh, nc, hopping=num(t1), hopping_next=num(t2), phi=phi, boundary_condition=bc_arg(rng, bc), mapping=MAPNAME[mp])
+    ns, edges = impl_edges(sh, nc, bc, 2)
+    got = ps_to_dict(qp.pauli.pauli_sentence(op), list(range(2 * ns)))
+    emits = []
+    for p_ in (0, 1, 2):
+        par = empty_par()
+        par["J"], par["T2"], par["ph"] = [t1], [t2], [p_]
+        emits.append({"kind": "emit", "model": "haldane", "sh": sh, "nc": nc, "bc": bc, "K": 2, "map": mp, "par": par, "edges": edges, "nsites": ns,
+                      "ham": [], "nq": 2 * ns, "exact": True})
+    desc = f"haldane({sh!r}, {nc}, hopping={num(t1)}, hopping_next={num(t2)}, phi={phi!r}, boundary_condition={bc}, mapping={MAPNAME[mp]!r})"
+    return emits, got, phi, desc
+
+
+def bridge_expected(e0, e1, e2, phi):
+    """H(phi) = H0 + cos(phi) Hc + sin(phi) Hs from the exact operators at phi = 0, pi/2, pi (the model is linear in e^{+-i phi})."""
+    out = {}
+    for w in set(e0) | set(e1) | set(e2):
+        a, b, c = e0.get(w, 0), e1.get(w, 0), e2.get(w, 0)
+        h0, hc = (a + c) / 2, (a - c) / 2
+        out[w] = h0 + math.cos(phi) * hc + math.sin(phi) * (b - h0)
+    return out
+
+
 def lattice_record(sh, nc, bc, K):
     ns, edges = impl_edges(sh, nc, bc, K)
     return {"kind": "lattice", "model": "", "sh": sh, "nc": nc, "bc": bc, "K": K, "map": "jw", "par": empty_par(), "edges": edges, "nsites": ns,
@@ -248,6 +277,7 @@ def run_trace(name, recs):
     verd = {t[1] - 1: t[2] for t in r.tuples if t[0] == "V"}
     if len(verd) != len(recs):
         raise lib.MachineryError(f"verdicts are not total: {len(verd)} of {len(recs)}")
+    r.emitted = {j["tid"] - 1: terms_to_dict(j["terms"]) for j in r.json_lines}
     return verd, r
 
 
@@ -374,7 +404,50 @@ def run(tier, seed):
         n_eval += 1
         recs.append(lattice_record(sh, nc, bc, K))
         meta.append(f"generate_lattice({sh!r}, {nc}, boundary_condition={bc}, neighbour_order={K})")
+    bridge = []
+    for _ in range(8 if quick else 100):
+        try:
+            emits, got, phi, d = haldane_bridge_case(rng, 6 if quick else 8)
+        except lib.MachineryError:
+            raise
+        except Exception as e:  # noqa: BLE001
+            agg.add(f"ham:haldane:{type(e).__name__}", f"haldane raised {type(e).__name__}: {e}", {"model": "haldane"})
+            continue
+        n_eval += 1
+        bridge.append((len(recs), got, phi, d, emits[0]["map"]))
+        recs += emits
+        meta += [d] * 3
     verd, tr = run_trace("trace", recs)
+    # float bridge: Haldane model at a general phase against the operator assembled from TLC's exact operators at 0, pi/2, pi
+    n_bridged, bridge_neg = 0, False
+    for (k0, got, phi, d, mp_) in bridge:
+        vs = [verd[k0], verd[k0 + 1], verd[k0 + 2]]
+        if any(v != "emitted" for v in vs):
+            bad = [v for v in vs if not v.startswith("skip") and v != "emitted"]
+            if bad:
+                agg.add(f"bridge:haldane:{mp_}:{bad[0]}", f"{bad[0]}: {d}", {"call": d})
+            else:
+                stats["bridge_" + vs[0]] = stats.get("bridge_" + vs[0], 0) + 1
+            continue
+        e0, e1, e2 = (tr.emitted[k0 + i] for i in range(3))
+        if got is None:
+            agg.add(f"bridge:haldane:{mp_}:malformed-output", f"operator acts outside wires 0..2n-1: {d}", {"call": d})
+            continue
+        why = sentence_diff(got, bridge_expected(e0, e1, e2, phi))
+        if why is None and any(abs(complex(c).imag) > 1e-9 for c in got.values()):
+            why = "a coefficient is not real (operator not Hermitian)"
+        if why:
+            agg.add(f"bridge:haldane:{mp_}:hamiltonian-differs", f"{why}; {d}", {"call": d, "phi": phi})
+        else:
+            n_bridged += 1
+            nontriv.add(("bridge", d))
+            if not bridge_neg and sentence_diff(got, bridge_expected(e0, e1, e2, phi + 0.05)) is not None:
+                bridge_neg = True
+    if bridge and n_bridged and not bridge_neg:
+        raise lib.MachineryError("negative control accepted by the Haldane float bridge (a shifted phase was not distinguished)")
+    if not n_bridged and not agg.d:
+        raise lib.MachineryError("vacuity: no Haldane case at a general phase was bridged")
+    neg += 1 if bridge_neg else 0
     # negative controls: corrupted copies of ACCEPTED records must be rejected
     ctrl = []
     for kind, model in (("lattice", ""), ("ham", "ising"), ("ham", "heis"), ("ham", "kitaev"), ("ham", "custom"), ("ham", "hubbard"), ("ham", "emery"),
@@ -395,6 +468,8 @@ def run(tier, seed):
     by_verdict, by_model, t_ok = {}, {}, 0
     for k, r in enumerate(recs):
         v = verd[k]
+        if r["kind"] == "emit":
+            continue
         by_verdict[v] = by_verdict.get(v, 0) + 1
         tag = r["model"] or "lattice"
         vtag = model_tag(r)
@@ -411,10 +486,11 @@ def run(tier, seed):
     for model, _ in plan + [("lattice", 0)]:
         if not by_model.get(model) and not agg.d:
             raise lib.MachineryError(f"vacuity: no accepted trace record for '{model}'")
-    flags = {"matrix_couplings": sum(1 for r in recs if r["kind"] == "ham" and (r["par"]["Jm"] or r["par"]["Vm"])),
-             "periodic": sum(1 for r in recs if any(r["bc"])), "second_or_third_neighbours": sum(1 for r in recs if r["K"] >= 2),
-             "parity_or_bk_mapping": sum(1 for r in recs if r["map"] != "jw"),
-             "haldane_nontrivial_phase": sum(1 for r in recs if r["model"] == "haldane" and (r["par"]["phm"] or (r["par"]["ph"] and r["par"]["ph"][0] % 2 == 1)))}
+    real = [r for r in recs if r["kind"] != "emit"]
+    flags = {"matrix_couplings": sum(1 for r in real if r["kind"] == "ham" and (r["par"]["Jm"] or r["par"]["Vm"])),
+             "periodic": sum(1 for r in real if any(r["bc"])), "second_or_third_neighbours": sum(1 for r in real if r["K"] >= 2),
+             "parity_or_bk_mapping": sum(1 for r in real if r["map"] != "jw"),
+             "haldane_nontrivial_phase": sum(1 for r in real if r["model"] == "haldane" and (r["par"]["phm"] or (r["par"]["ph"] and r["par"]["ph"][0] % 2 == 1)))}
     for k_, v_ in flags.items():
         if not v_:
             raise lib.MachineryError(f"vacuity: no trace record with {k_}")
@@ -424,7 +500,8 @@ def run(tier, seed):
     samples += [{"kind": "hamiltonian", "call": meta[k][:300], "verdict": verd[k], "operator": show_terms(r["ham"])[:300]}
                 for k, r in enumerate(recs) if r["kind"] == "ham" and r["model"] in ("haldane", "kitaev") and verd[k] == "ok"][:2]
     cov = {"states": g.distinct + tr.distinct, "transitions": g.generated + tr.generated,
-           "traces_validated_against_impl": len(recs), "traces_ok": t_ok, "evaluations": n_eval,
+           "traces_validated_against_impl": sum(1 for r in recs if r["kind"] != "emit"), "traces_ok": t_ok, "evaluations": n_eval,
+           "haldane_general_phase_cases_bridged": n_bridged,
            "distinct_nontrivial": len(nontriv),
            "rule": "distinct lattice configurations with >= 2 edges whose replay agreed, plus distinct accepted trace records (operator with >= 3 terms "
                    "or lattice with >= 3 edges)",
@@ -440,8 +517,9 @@ def run(tier, seed):
                                  "invariant": "Lawful (geometry tables = textbook bonds / coordination / distance ratios; per-configuration laws)"},
                    "trace": {"generated": tr.generated, "distinct": tr.distinct, "wall_s": round(tr.wall_s, 1)}}}
     return CheckResult(coverage=cov, violations=agg.violations(),
-                       assumptions=["couplings are dyadic rationals so that every coefficient is observable exactly; the Haldane phase is restricted to "
-                                    "multiples of pi/2 (e^{i phi} in {1, i, -1, -i}) and coefficients are snapped to dyadics within 1e-9",
+                       assumptions=["couplings are dyadic rationals so that every coefficient is observable exactly; in the exact part the Haldane phase is a "
+                                    "multiple of pi/2 (e^{i phi} in {1, i, -1, -i}, coefficients snapped to dyadics within 1e-9); general phases are "
+                                    "bridged numerically (1e-9) against H0 + cos(phi) Hc + sin(phi) Hs assembled from TLC's exact operators at 0, pi/2, pi",
                                     "edges are compared as sets per neighbour class; site matrices are symmetric",
                                     "not decided (counted, never a violation): inputs where a site is its own k-th neighbour through a periodic image "
                                     "(self-loop edges), finite lattices that do not realise all of the first K neighbour distances (PennyLane then ranks "
